@@ -73,6 +73,7 @@ ALLOWED_PER_ENTRY["cdd.compound.openapi.gen_routes:upsert_routes"] = {
     "FS_WRITE@cdd.compound.openapi.gen_routes:upsert_routes:.write#0": "the explicitly named routes file",
     "FS_WRITE@cdd.compound.openapi.gen_routes:upsert_routes:open#1": "the explicitly named routes file (append of the missing routes)",
     "FS_WRITE@cdd.compound.openapi.gen_routes:upsert_routes:.write#1": "the explicitly named routes file (append of the missing routes)",
+    "FS_WRITE@cdd.compound.openapi.gen_routes:upsert_routes:.write#2": "the explicitly named routes file (same handle: separator + the missing routes, since fix f892f04)",
 }
 ALLOWED_PER_ENTRY["cdd.compound.openapi.gen_openapi:openapi_bulk"] = {}
 
